@@ -32,4 +32,15 @@ def members (mtime : Nat) (control md5sums conffiles triggers : Bytes) (scripts 
 /-- looking a member up by name, as dpkg does -/
 def lookup (name : Bytes) (ms : List Tar.Member) : Option Tar.Member := ms.find? (fun m => m.hdr.name = b!"./" ++ name)
 
+/-! ### ipk: ipk.populateControlTar (writeToFile / getScripts + writeFile) -/
+
+/-- the four slots in the order getScripts lists them; every script member is written with mode 0755 -/
+def ipkSlots : List (Bytes × Nat) :=
+  [ (b!"preinst", 0o755), (b!"postinst", 0o755), (b!"prerm", 0o755), (b!"postrm", 0o755) ]
+
+/-- ./control and ./conffiles always, then the configured scripts -/
+def ipkMembers (mtime : Nat) (control conffiles : Bytes) (scripts : Bytes → Option Bytes) : List Tar.Member :=
+  [ file b!"control" 0o644 mtime control, file b!"conffiles" 0o644 mtime conffiles ]
+  ++ ipkSlots.filterMap (fun s => (scripts s.1).map (file s.1 s.2 mtime))
+
 end Nfpm.DebCtl
